@@ -66,43 +66,74 @@ pub fn shape_queries() -> Vec<(String, Vec<T>)> {
          ("r".into(), vec![x(), var("$Y")]), ("s".into(), vec![x(), var("$Y")])]
 }
 
-/// Clause list for p/1: a body rule, or one of two facts.
+/// Number of bodies `shape_bodies(alpha, k)` enumerates.
+pub fn shape_body_count(n: usize, k: usize) -> usize {
+    let mut c = n;
+    if k >= 2 { c += 2 * n * n; }
+    if k >= 3 { c += 6 * n * n * n; }
+    c
+}
+
+/// The i-th body of `shape_bodies(alpha, k)` without materialising the list.
+pub fn shape_body_at(alpha: &[G], k: usize, i: usize) -> G {
+    let n = alpha.len();
+    if i < n { return alpha[i].clone(); }
+    let i = i - n;
+    if k >= 2 && i < 2 * n * n {
+        let (pair, which) = (i / 2, i % 2);
+        let (a, b) = (alpha[pair / n].clone(), alpha[pair % n].clone());
+        return if which == 0 { G::And(vec![a, b]) } else { G::Or(vec![a, b]) };
+    }
+    let i = i - 2 * n * n;
+    let (tri, which) = (i / 6, i % 6);
+    let (a, b, c) = (alpha[tri / (n * n)].clone(), alpha[(tri / n) % n].clone(), alpha[tri % n].clone());
+    match which {
+        0 => G::And(vec![a, b, c]),
+        1 => G::Or(vec![a, b, c]),
+        2 => G::And(vec![a, G::Or(vec![b, c])]),
+        3 => G::And(vec![G::Or(vec![a, b]), c]),
+        4 => G::Or(vec![G::And(vec![a, b]), c]),
+        _ => G::Or(vec![a, G::And(vec![b, c])]),
+    }
+}
+
+/// Clause list for p/1: a body rule, or one of two facts. Bodies are decoded from their
+/// index on demand (the enumeration is never materialised, which matters under Miri).
 #[derive(Clone, Debug)]
-pub struct Shapes { pub bodies1: Vec<G>, pub bodies2: Vec<G>, pub queries: Vec<(String, Vec<T>)>, pub n1: u64, pub n2: u64 }
+pub struct Shapes { pub alpha: Vec<G>, pub k1: usize, pub k2: usize, pub nb1: usize, pub nb2: usize, pub queries: Vec<(String, Vec<T>)>, pub n1: u64, pub n2: u64 }
 
 impl Shapes {
     /// k1: goal bound for single-clause programs, k2: for two-clause programs.
     pub fn new(f: Feat, k1: usize, k2: usize) -> Shapes {
         let alpha = shape_alphabet(f);
-        let bodies1 = shape_bodies(&alpha, k1);
-        let bodies2 = shape_bodies(&alpha, k2);
+        let nb1 = shape_body_count(alpha.len(), k1);
+        let nb2 = shape_body_count(alpha.len(), k2);
         let queries = shape_queries();
         let nq = queries.len() as u64;
-        let c2 = (bodies2.len() + 2) as u64;
-        Shapes { n1: bodies1.len() as u64 * nq, n2: c2 * c2 * nq, bodies1, bodies2, queries }
+        let c2 = (nb2 + 2) as u64;
+        Shapes { n1: nb1 as u64 * nq, n2: c2 * c2 * nq, alpha, k1, k2, nb1, nb2, queries }
     }
     pub fn total(&self) -> u64 { self.n1 + self.n2 }
-    fn clause(bodies: &[G], i: usize) -> Clause {
-        if i < bodies.len() { rule("p", vec![x()], bodies[i].clone()) }
-        else if i == bodies.len() { fact("p", vec![atom("a")]) }
+    fn clause(&self, k: usize, nb: usize, i: usize) -> Clause {
+        if i < nb { rule("p", vec![x()], shape_body_at(&self.alpha, k, i)) }
+        else if i == nb { fact("p", vec![atom("a")]) }
         else { fact("p", vec![var("$Z")]) }
     }
     pub fn get(&self, idx: u64) -> Case {
         let nq = self.queries.len() as u64;
         let mut clauses = shape_base();
-        let (qi, rest) = if idx < self.n1 {
+        let qi = if idx < self.n1 {
             let qi = idx % nq; let b = (idx / nq) as usize;
-            clauses.push(Self::clause(&self.bodies1, b));
-            (qi, 0)
+            clauses.push(self.clause(self.k1, self.nb1, b));
+            qi
         } else {
             let idx = idx - self.n1;
             let qi = idx % nq; let r = idx / nq;
-            let c2 = (self.bodies2.len() + 2) as u64;
-            clauses.push(Self::clause(&self.bodies2, (r / c2) as usize));
-            clauses.push(Self::clause(&self.bodies2, (r % c2) as usize));
-            (qi, 0)
+            let c2 = (self.nb2 + 2) as u64;
+            clauses.push(self.clause(self.k2, self.nb2, (r / c2) as usize));
+            clauses.push(self.clause(self.k2, self.nb2, (r % c2) as usize));
+            qi
         };
-        let _ = rest;
         let (qname, qargs) = self.queries[qi as usize].clone();
         Case { prog: Program { clauses }, qname, qargs }
     }
@@ -297,4 +328,19 @@ pub fn alpha_rename(c: &Case, mode: usize, r: &mut Rng) -> Case {
         }))
     }).collect();
     Case { prog: Program { clauses }, qname: c.qname.clone(), qargs: c.qargs.clone() }
+}
+
+#[cfg(test)]
+mod test {
+    use super::*;
+    #[test]
+    fn lazy_bodies_equal_materialised() {
+        let f = Feat { cut: true, not: true, print: true, fail: true, ..Feat::default() };
+        let alpha = shape_alphabet(f);
+        for k in 1..=3 {
+            let all = shape_bodies(&alpha, k);
+            assert_eq!(all.len(), shape_body_count(alpha.len(), k));
+            for (i, b) in all.iter().enumerate() { assert_eq!(*b, shape_body_at(&alpha, k, i)); }
+        }
+    }
 }
